@@ -41,11 +41,15 @@ var c04Ops = []c04Op{
 }
 
 func runC04(c *wk.Ctx) {
-	c.Meta("rule", "per case: a generated schema (all 15 kinds, nested, map-based and struct-mapped objects over a pool of Go types, typed enums, one-of inlined/not, treat-empty-as-default, units, defaults, presence rules, scopes with recursive references) built through the public constructors; then Unserialize / data-mode ValidateCompatibility / Validate / Serialize are called with (a) each of ~66 hostile values (nil, typed nils, wrong kinds, NaN/Inf/2^63, uint64 max, []byte, cbor.Tag, big.Int, time, typed maps/slices, mixed / NaN / bool / array map keys, named scalars, pointers, wrong structs, funcs, chans) at the root, (b) the same substituted at a random position of an otherwise valid input, (c) valid inputs in alternative representations and their CBOR image, (d) the unserialized native value and hostile substitutions in it, (e) 2000-deep nesting. Each call is journalled before it is made (fatal crashes are attributed by the parent) and guarded (recovered panics). distinct = hash(root kind, position kind, operation, dynamic type); a case is non-trivial when the hostile value is placed below the root")
+	c.Meta("rule", "per case: a generated schema (all 15 kinds, nested, map-based and struct-mapped objects over a pool of Go types, typed enums, one-of inlined/not, treat-empty-as-default, units, defaults, presence rules, scopes with recursive references) built through the public constructors; then Unserialize / data-mode ValidateCompatibility / Validate / Serialize are called with (a) each of ~66 hostile values (nil, typed nils, wrong kinds, NaN/Inf/2^63, uint64 max, []byte, cbor.Tag, big.Int, time, typed maps/slices, mixed / NaN / bool / array map keys, named scalars, pointers, wrong structs, funcs, chans) at the root, (b) the same substituted at a random position of an otherwise valid input, (c) valid inputs in alternative representations and their CBOR image, (d) the unserialized native value and hostile substitutions in it, (e) 2000-deep nesting, also with an unacceptable value (nil, a func, a string) at the bottom. Each call is journalled before it is made (fatal crashes are attributed by the parent) and guarded (recovered panics). distinct = hash(root kind, position kind, operation, dynamic type); a case is non-trivial when the hostile value is placed below the root")
 	c.Meta("assumptions", []string{"struct-mapped objects range over a fixed pool of 11 Go types", "a non-terminating call is decided by CPU time of the worker on one journalled call (20 s), see DESIGN.md §1"})
 	c.Floor("calls", 20000)
 	for k := 0; k < gen.NKinds; k++ {
 		c.Floor("node-kind:"+gen.Kind(k).String(), 1)
+	}
+	if c.Mine(0) {
+		c.Begin(0, "cross-namespace default loops")
+		c04CrossNamespace(c)
 	}
 	n := c.N(2500, 600000)
 	c.Cases(n, func(idx int64, r *wk.Rand) {
@@ -177,12 +181,75 @@ func runC04(c *wk.Ctx) {
 				for _, op := range c04Ops {
 					call(op, deep, "deep-nesting")
 				}
+				// the same with a value at the bottom that nothing accepts: the error has to travel all the way up
+				for _, leaf := range []any{nil, func() {}, "bottom"} {
+					deepBad := gen.DeepNestLeaf(2000, asMap, leaf)
+					for _, op := range c04Ops {
+						call(op, deepBad, "deep-nesting-bad-leaf")
+					}
+				}
 			}
 		}
 		if idx < 4 {
 			c.Sample("schema", descr)
 		}
 	})
+}
+
+// c04CrossNamespace: defaults that lead back to their own property through references into ANOTHER namespace, linked
+// by a later ApplyNamespace call (two sibling scopes referring to each other; a scope that refers to itself under a
+// second name). Linking must refuse them - or every operation on what was accepted must still terminate.
+func c04CrossNamespace(c *wk.Ctx) {
+	def := "{}"
+	prop := func(t schema.Type, d *string) *schema.PropertySchema {
+		return schema.NewPropertySchema(t, nil, false, nil, nil, nil, d, nil)
+	}
+	builders := map[string]func() []schema.Type{
+		"two sibling scopes": func() []schema.Type {
+			s1 := schema.NewScopeSchema(schema.NewObjectSchema("A", map[string]*schema.PropertySchema{"b": prop(schema.NewNamespacedRefSchema("B", "ext", nil), &def)}))
+			s2 := schema.NewScopeSchema(schema.NewObjectSchema("B", map[string]*schema.PropertySchema{"a": prop(schema.NewNamespacedRefSchema("A", "main", nil), &def)}))
+			s1.ApplyNamespace(s2.Objects(), "ext")
+			s2.ApplyNamespace(s1.Objects(), "main")
+			return []schema.Type{s1, s2}
+		},
+		"one scope under a second name": func() []schema.Type {
+			s := schema.NewScopeSchema(schema.NewObjectSchema("N", map[string]*schema.PropertySchema{
+				"next": prop(schema.NewNamespacedRefSchema("N", "again", nil), &def), "v": prop(schema.NewIntSchema(nil, nil, nil), nil)}))
+			s.ApplyNamespace(s.Objects(), "again")
+			return []schema.Type{s}
+		},
+		"through a list": func() []schema.Type {
+			d := "[{}]"
+			s1 := schema.NewScopeSchema(schema.NewObjectSchema("A", map[string]*schema.PropertySchema{
+				"items": prop(schema.NewListSchema(schema.NewNamespacedRefSchema("B", "ext", nil), nil, nil), &d)}))
+			s2 := schema.NewScopeSchema(schema.NewObjectSchema("B", map[string]*schema.PropertySchema{"a": prop(schema.NewNamespacedRefSchema("A", "main", nil), &def)}))
+			s2.ApplyNamespace(s1.Objects(), "main")
+			s1.ApplyNamespace(s2.Objects(), "ext")
+			return []schema.Type{s1, s2}
+		},
+	}
+	for _, name := range sortedKeys(builders) {
+		var ts []schema.Type
+		c.Note("linking: " + name)
+		if p, _, _, _ := wk.Guard(func() { ts = builders[name]() }); p {
+			c.Count("cross_namespace_self_expanding_defaults_refused")
+			continue
+		}
+		c.Count("cross_namespace_self_expanding_defaults_ACCEPTED")
+		for _, t := range ts {
+			for _, in := range []any{map[string]any{}, map[any]any{}, nil, "x", []any{}} {
+				for _, op := range c04Ops {
+					c.Note(fmt.Sprintf("%s on accepted cross-namespace scopes (%s) dyn=%s", op.name, name, dynType(in)))
+					var err error
+					if p, site, msg, _ := wk.Guard(func() { err = op.call(t, in) }); p {
+						c.Violation("C04:panic:"+op.name+":"+site, op.name+" panicked on scopes linked across namespaces ("+name+"): "+msg, map[string]any{"scopes": name})
+					}
+					_ = err
+					c.Count("calls")
+				}
+			}
+		}
+	}
 }
 
 func init() { register("C04", runC04) }
